@@ -7,6 +7,7 @@ import Sudachi.Model.OovIO
 import Sudachi.Model.Normalize
 import Sudachi.Model.Numeric
 import Sudachi.Model.Cli
+import Sudachi.Model.Sched
 import Sudachi.Model.Rewrite
 /-! Line protocol dispatcher: one case per line in, one answer per line out. -/
 namespace Driver
@@ -25,6 +26,7 @@ def answer (line : String) : String :=
     | "C07" => Normalize.handle op rest
     | "C15" => Numeric.handle op rest
     | "C19" => Cli.handle op rest
+    | "C18" => Sched.handle rest
     | "C14" => Rewrite.handle rest
     | _ => "bad-op"
   | _ => "bad-op"
